@@ -224,3 +224,26 @@ pub fn sizes_input_witness() {
     kani::cover!(w1 == 0 && w2 == 0xfd, "empty item and 253-byte item");
     core::mem::forget(tx);
 }
+
+//@ prop=C12 tier=thorough secp=1 mem=24 timeout=3600 desc="2-in/2-out: witness only on the SECOND input (one script-witness item, symbolic length) and a rangeproof only on the FIRST output (symbolic length), second output null-valued variants; sums over elements and the single witness flag"
+#[kani::proof]
+#[kani::unwind(6)]
+#[kani::stub(<core::any::TypeId as crate::stubs::traits::PEq>::eq, crate::stubs::typeid_eq_model)]
+pub fn sizes_two_by_two() {
+    let (l1, l2, w, rp) = (sym_len(), sym_len(), sym_len(), sym_len());
+    let mut in2 = base_input(l2);
+    in2.witness.script_witness = vec![zeros(w)];
+    let out1 = TxOut {
+        asset: explicit_asset(),
+        value: genuine_value_commitment(false),
+        nonce: Nonce::Null,
+        script_pubkey: Script::from(zeros(1)),
+        witness: TxOutWitness { surjection_proof: None, rangeproof: rangeproof_of_len(rp) },
+    };
+    let out2 = TxOut { asset: Asset::Null, value: Value::Null, nonce: Nonce::Explicit([5u8; 32]), script_pubkey: Script::new(), witness: TxOutWitness::default() };
+    let tx = Transaction { version: 2, lock_time: LockTime::ZERO, input: vec![base_input(l1), in2], output: vec![out1, out2] };
+    let wit1 = 1 + crate::refm::compact_size_len(rp as u64) + rp;
+    check_tx(&tx, wit1.saturating_sub(2) + 24 * 4);
+    kani::cover!(rp == 0 && w == 0, "witness flag from an empty-item stack only");
+    core::mem::forget(tx);
+}
